@@ -24,6 +24,7 @@ OPS = ["len", "badlen", "idx", "iter", "concat", "eq", "astype", "vla", "inherit
 FLOOR_TAGS = ["op:" + o for o in OPS] + ["idx:int", "idx:slice", "idx:list", "idx:mask", "idx:boollist", "idx:emptylist", "len:0", "fields:1", "fields:4",
                                          "astype:reordered", "astype:same-order", "eq:same", "eq:cell-differs", "eq:length-differs", "eq:shape-differs", "field:2d", "field:float", "badlen:first", "badlen:other", "vla:fortran", "inherit:badlen", "inherit:eq", "inherit:idx"]
 FLOOR_MONITORS = ["c18:compare", "c18:aligned"]
+FP_STRICT = True       # a floating-point event inside the library that the dense computation does not have is a violation (shard.FpMonitor)
 N_RANDOM = {"quick": 32000, "thorough": 200000}
 _CLS = {}
 
